@@ -184,6 +184,16 @@ func (c *Ctx) kernelOf(fn *ssa.Function, key string, inline ...string) *Result {
 	for _, e := range en.Errors {
 		c.undecided("engine", name, "pathwalk: "+e, c.P.Pos(fn.Pos()), e)
 	}
+	// paths whose integer facts contradict each other are not paths of the program
+	kept := res.Terms[:0]
+	for _, t := range res.Terms {
+		if newBounds(t, -1).inconsistent() {
+			res.Pruned++
+			continue
+		}
+		kept = append(kept, t)
+	}
+	res.Terms = kept
 	c.Kernels[key] = res
 	c.KStats[shortFn(fn)] = fmt.Sprintf("%d paths, %d steps", len(res.Terms), res.Steps)
 	return res
